@@ -180,8 +180,19 @@ def summarise(func, limit=6000, to_raise=True):
                                     ctx=ast.Load()) if size(it) < MAX_NODES else None
                                 k += 1
                     c = 'ITER(%s)' % norm_src(it)
+                    if ps.facts.get(c) is False and _pure(it):
+                        ps.infeasible = True
                     ps.facts[c] = True
                     ps.order.append((c, True, len(ps.events)))
+                elif lab == 'exhausted':
+                    c = 'ITER(%s)' % norm_src(it)
+                    if c not in ps.facts:
+                        # the loop body did not run on this path
+                        if any(k.startswith('ITER(') and k == c and v
+                               for k, v in ps.facts.items()):
+                            pass
+                        ps.facts[c] = False
+                        ps.order.append((c, False, len(ps.events)))
                 continue
             if n.kind != 'stmt':
                 continue
